@@ -6,7 +6,7 @@ digits and underscores, ASCII only.  It is shared with the generated contract
 of the regular expression `_name_match` (whose agreement with this definition
 for strings of every length is an automaton obligation).
 """
-from pyvc.specapi import recursive
+from pyvc.specapi import opaque, recursive
 
 NAME_START = 'abcdefghijklmnopqrstuvwxyzABCDEFGHIJKLMNOPQRSTUVWXYZ_'
 NAME_CONT = NAME_START + '0123456789'
@@ -21,6 +21,7 @@ def name_len(s, pos):
     return n
 
 
+@opaque(['str'], 'bool', reveal=['substitution._split'])
 def split_err(s):
     """The first '$' of s starts a malformed construct."""
     i = s.find('$')
@@ -40,6 +41,7 @@ def split_err(s):
     return name_len(s, i + 1) == 0       # '$' followed by anything else
 
 
+@opaque(['str'], 'Tuple[str, Opt[str], Opt[str], Opt[str], Opt[str]]', reveal=['substitution._split'])
 def split_spec(s):
     """(literal prefix, lower-cased name, name as written, rest, kind) for the
     first '$' construct of s; meaningful when not split_err(s)."""
@@ -60,3 +62,47 @@ def split_spec(s):
     n = name_len(s, i + 1)
     nm = s[i + 1:i + 1 + n]
     return (s[:i], nm.lower(), nm, s[i + 1 + n:], 'define')
+
+
+def prepend(prefix, r):
+    """Put literal text in front of the outcome of substituting the rest."""
+    if r[0] == 0:
+        return (0, prefix + r[1])
+    return r
+
+
+@recursive(['str', 'Map[str,str]'], 'Tuple[int, str]')
+def subst_spec(s, d):
+    """Outcome of substituting into s with definitions d (keys lower-cased) and
+    the process environment: (0, text) | (1, '') syntax error | (2, name as
+    written) no value for that name.  Constructs are handled left to right;
+    replacement text is never rescanned."""
+    if '$' not in s:
+        return (0, s)
+    if split_err(s):
+        return (1, '')
+    p, name, namecase, suffix, vtype = split_spec(s)
+    if name is None:                     # '$$' -> '$' (already part of p)
+        return prepend(p, subst_spec(val(suffix), d))
+    if vtype == 'define':
+        v = d.get(name)
+    else:
+        v = env_get(val(namecase))
+    if v is None:
+        return (2, val(namecase))
+    return prepend(p + val(v), subst_spec(val(suffix), d))
+
+
+def val(x):
+    """Specification helper: the value of an optional that is known to be set."""
+    assert x is not None
+    return x
+
+
+def orelse(x, d):
+    return d if x is None else x
+
+
+def env_get(name):
+    import os
+    return os.environ.get(name)
